@@ -16,6 +16,7 @@ import (
 	"strconv"
 	"strings"
 	"sync/atomic"
+	"unicode/utf8"
 
 	cloudstorage "cloud.google.com/go/storage"
 	"github.com/bluele/gcache"
@@ -194,7 +195,7 @@ func (g *GcsEmu) handleGcsCompose(ctx context.Context, baseUrl HttpBaseUrl, w ht
 	}
 	// Get the composed object name from the path
 	parts := strings.Split(object, "/compose")
-	if len(parts) != 2 || parts[0] == "" {
+	if len(parts) != 2 || !validObjectName(parts[0]) {
 		g.gapiError(w, http.StatusBadRequest, "bad compose request")
 		return
 	}
@@ -433,8 +434,8 @@ func (g *GcsEmu) handleGcsCopy(ctx context.Context, baseUrl HttpBaseUrl, w http.
 	}
 	b2 := destParts[0]
 	f2 := destParts[1]
-	if f2 == "" {
-		g.gapiError(w, http.StatusBadRequest, fmt.Sprintf("Bad rewrite request, missing destination object name: %s", parts[1]))
+	if !validObjectName(f2) {
+		g.gapiError(w, http.StatusBadRequest, fmt.Sprintf("Bad rewrite request, missing or invalid destination object name: %s", parts[1]))
 		return
 	}
 
@@ -501,13 +502,20 @@ func (g *GcsEmu) handleGcsNewBucket(ctx context.Context, w http.ResponseWriter, 
 	g.jsonRespond(w, bucket)
 }
 
+// validObjectName reports whether a new object can be given this name: object names are non-empty
+// valid UTF-8. (A name that is not valid UTF-8 cannot be reported back in JSON, and cannot be carried by a
+// page token, whose encoder panics on it.)
+func validObjectName(name string) bool {
+	return name != "" && utf8.ValidString(name)
+}
+
 func (g *GcsEmu) handleGcsNewObject(ctx context.Context, baseUrl HttpBaseUrl, w http.ResponseWriter, r *http.Request, bucket string, conds cloudstorage.Conditions) {
 	switch r.Form.Get("uploadType") {
 	case "media":
 		// simple upload
 		name := r.Form.Get("name")
-		if name == "" {
-			g.gapiError(w, http.StatusBadRequest, "missing object name")
+		if !validObjectName(name) {
+			g.gapiError(w, http.StatusBadRequest, "missing or invalid object name")
 			return
 		}
 
